@@ -1,18 +1,1571 @@
-//! C07 — not built yet (stub).
+//! C07 — structural edits relocate content exactly like a reference grid (engine E2, model checking).
+//!
+//! Breadth-first exploration of edit histories over REAL `Spreadsheet` objects (two sheets) stepped in
+//! lock-step with the library-free reference grid of `c07_refgrid.rs`.  Every transition is a conformance
+//! check dump(real') == model' on every sheet, plus: no panic, every coordinate inside the grid, and the
+//! law remove(p,n) after insert(p,n) == identity (as explicit "law" operations of the alphabet, i.e.
+//! evaluated on every expanded state).  After a divergence the violation is reported once and the model is
+//! re-synchronised to the real object, so deeper levels keep checking other things.
 use crate::common::*;
+use crate::e1::*;
+use crate::e2::*;
 use crate::pool::*;
-use serde_json::Value;
+use serde_json::{json, Value};
+use std::cell::Cell as StdCell;
+use std::cell::RefCell as StdRefCell;
+use std::collections::{BTreeMap, BTreeSet};
+use umya_spreadsheet::{Cell, Comment, ConditionalFormatting, ConditionalFormattingRule, Hyperlink, Range, SequenceOfReferences, Spreadsheet, Style, Worksheet};
+
+#[path = "c07_refgrid.rs"]
+pub mod refgrid;
+use refgrid::*;
 
 pub fn entry() -> crate::Entry {
     crate::Entry { id: "C07", run, space, replay }
 }
-pub fn space(_tier: Tier, _id: &str) -> Option<Box<dyn Space>> {
-    None
+
+const NAMES: [&str; 2] = ["Sheet1", "Sheet2"];
+const DEFAULT_COL_WIDTH: f64 = 8.38;
+/// violations kept per (clause, symptom, tags) class inside one pool case (the rest is counted)
+const KEEP_PER_CLASS_PER_CASE: u32 = 3;
+
+// =================================================================================================
+// dump of the real object (public getters only)
+
+fn style_tag(s: &Style) -> String {
+    let bold = s.get_font().map(|f| *f.get_bold()).unwrap_or(false);
+    let fill = s.get_background_color().map(|c| c.get_argb().to_string()).unwrap_or_default();
+    let nf = s.get_numbering_format().map(|n| n.get_format_code().to_string()).unwrap_or_default();
+    format!("{}|{}|{}", bold as u8, fill, nf)
 }
-fn replay(_tier: Tier, _case: &Value) -> Vec<Violation> {
-    vec![]
+const STYLE_TAGS: [&str; 3] = ["0||", "1||", "0|FFFFFF00|0.00"];
+
+fn range_rect(r: &Range) -> Rect {
+    let c1 = r.get_coordinate_start_col().map(|c| *c.get_num()).unwrap_or(0);
+    let r1 = r.get_coordinate_start_row().map(|c| *c.get_num()).unwrap_or(0);
+    let c2 = r.get_coordinate_end_col().map(|c| *c.get_num()).unwrap_or(c1);
+    let r2 = r.get_coordinate_end_row().map(|c| *c.get_num()).unwrap_or(r1);
+    Rect::new(r1, c1, r2, c2)
 }
-fn run(_ctx: &Ctx) -> i32 {
-    eprintln!("MACHINERY: C07 is not built yet");
-    2
+
+pub struct SheetDump {
+    /// the part the reference model speaks about
+    pub view: RefSheet,
+    /// remaining positional state (blank cells, default row/column table entries): part of the state key only
+    pub extra: String,
+    /// every coordinate-bearing object, for the in-grid clause
+    pub coords: Vec<(&'static str, Rect)>,
+    /// incoherences of the object itself: (symptom, kind, detail)
+    pub anomalies: Vec<(&'static str, &'static str, String)>,
+    /// merges and (flattened) conditional-format rectangles in the order the library lists them; used only to
+    /// pair objects when NAMING a difference (the verdict is the multiset comparison of the views)
+    pub raw_merges: Vec<(String, Rect)>,
+    pub raw_cfs: Vec<(String, Rect)>,
+    /// objects that are not part of the model view but are adjusted by the edits and can make them panic:
+    /// the VML box of each comment, converted to 1-based (kind "comment-anchor"); part of the state key and of tags
+    pub aux: Vec<(&'static str, Rect)>,
+}
+
+fn is_blank(c: &RefCell) -> bool {
+    c.value.is_empty() && c.kind.is_empty() && c.formula.is_empty() && c.style == STYLE_TAGS[0] && c.link.is_none()
+}
+
+pub fn dump_sheet(ws: &Worksheet) -> SheetDump {
+    let mut view = RefSheet::default();
+    view.name = ws.get_name().to_string();
+    let mut extra = String::new();
+    let mut coords = vec![];
+    let mut anomalies = vec![];
+    // cells: map key is (row, col)
+    let mut cells: Vec<(&(u32, u32), &Box<Cell>)> = ws.get_collection_to_hashmap().iter().collect();
+    cells.sort_by_key(|x| *x.0);
+    for (k, c) in cells {
+        let own = (*c.get_coordinate().get_row_num(), *c.get_coordinate().get_col_num());
+        if own != *k {
+            anomalies.push(("cell-own-coordinate-stale", "cell", format!("map key {} holds a cell whose own coordinate is {}", a1(k.0, k.1), a1(own.0, own.1))));
+            extra.push_str(&format!("own{:?}@{:?};", own, k));
+        }
+        coords.push(("cell", Rect::new(k.0, k.1, k.0, k.1)));
+        let rc = RefCell {
+            value: c.get_value().to_string(),
+            kind: c.get_data_type().to_string(),
+            formula: c.get_formula().to_string(),
+            style: style_tag(c.get_style()),
+            link: c.get_hyperlink().map(|h| h.get_url().to_string()),
+        };
+        if is_blank(&rc) {
+            extra.push_str(&format!("b{},{};", k.0, k.1));
+        } else {
+            view.cells.insert(*k, rc);
+        }
+    }
+    // row table
+    let mut rows: Vec<_> = ws.get_row_dimensions_to_hashmap().iter().collect();
+    rows.sort_by_key(|x| *x.0);
+    for (k, r) in rows {
+        let num = *r.get_row_num();
+        if num != *k {
+            anomalies.push(("rowdim-own-number-stale", "rowdim", format!("row table key {} holds row {}", k, num)));
+            extra.push_str(&format!("rown{}@{};", num, k));
+        }
+        coords.push(("rowdim", Rect::new(num, 1, num, 1)));
+        let h = *r.get_height();
+        if *r.get_custom_height() || *r.get_hidden() || h != 0.0 {
+            if view.rows.insert(num, DimSet { size_bits: h.to_bits(), hidden: *r.get_hidden() }).is_some() {
+                anomalies.push(("rowdim-duplicated", "rowdim", format!("two row table entries for row {}", num)));
+            }
+        } else {
+            extra.push_str(&format!("r{};", num));
+        }
+    }
+    // column table (a list)
+    let mut cols: Vec<(u32, f64, bool)> = ws.get_column_dimensions().iter().map(|c| (*c.get_col_num(), *c.get_width(), *c.get_hidden())).collect();
+    cols.sort_by(|a, b| (a.0, a.1.to_bits(), a.2).cmp(&(b.0, b.1.to_bits(), b.2)));
+    for (num, w, hidden) in cols {
+        coords.push(("coldim", Rect::new(1, num, 1, num)));
+        if w != DEFAULT_COL_WIDTH || hidden {
+            if view.cols.insert(num, DimSet { size_bits: w.to_bits(), hidden }).is_some() {
+                anomalies.push(("coldim-duplicated", "coldim", format!("two column table entries with settings for column {}", num)));
+            }
+        } else {
+            extra.push_str(&format!("c{};", num));
+        }
+    }
+    let mut raw_merges = vec![];
+    let mut raw_cfs = vec![];
+    let mut aux = vec![];
+    for m in ws.get_merge_cells() {
+        let r = range_rect(m);
+        coords.push(("merge", r));
+        view.merges.push(r);
+        raw_merges.push((String::new(), r));
+    }
+    let mut anchors = vec![];
+    for c in ws.get_comments() {
+        let k = (*c.get_coordinate().get_row_num(), *c.get_coordinate().get_col_num());
+        coords.push(("comment", Rect::new(k.0, k.1, k.0, k.1)));
+        view.comments.entry(k).or_default().push(c.get_text().get_text().to_string());
+        let a = c.get_anchor();
+        // the anchor is stored 0-based; the edits adjust (value + 1)
+        anchors.push((k, Rect::new(a.get_top_row().saturating_add(1), a.get_left_column().saturating_add(1), a.get_bottom_row().saturating_add(1), a.get_right_column().saturating_add(1))));
+    }
+    anchors.sort();
+    for (k, r) in anchors {
+        extra.push_str(&format!("anchor{:?}={:?};", k, r));
+        aux.push(("comment-anchor", r));
+    }
+    for cf in ws.get_conditional_formatting_collection() {
+        let tag = cf.get_conditional_collection().iter().map(|r| r.get_priority().to_string()).collect::<Vec<_>>().join(",");
+        let rects: Vec<Rect> = cf.get_sequence_of_references().get_range_collection().iter().map(range_rect).collect();
+        for r in &rects {
+            coords.push(("cf", *r));
+            raw_cfs.push((tag.clone(), *r));
+        }
+        view.cfs.push((tag, rects));
+    }
+    if let Some(f) = ws.get_auto_filter() {
+        let r = range_rect(f.get_range());
+        coords.push(("filter", r));
+        view.filter = Some(r);
+    }
+    view.normalise();
+    SheetDump { view, extra, coords, anomalies, raw_merges, raw_cfs, aux }
+}
+
+fn grid_problems(coords: &[(&'static str, Rect)]) -> BTreeSet<(&'static str, &'static str)> {
+    let mut out = BTreeSet::new();
+    for (kind, r) in coords {
+        if r.r1 == 0 || r.r2 == 0 {
+            out.insert(("row-0", *kind));
+        }
+        if r.c1 == 0 || r.c2 == 0 {
+            out.insert(("col-0", *kind));
+        }
+        if r.r1 > MAXR || r.r2 > MAXR || r.c1 > MAXC || r.c2 > MAXC {
+            out.insert(("beyond-grid", *kind));
+        }
+        if r.r1 > r.r2 || r.c1 > r.c2 {
+            out.insert(("start-after-end", *kind));
+        }
+    }
+    out
+}
+
+// =================================================================================================
+// seeds: one declarative spec applied to the real object (setters) and, by hand, to the model
+
+#[derive(Clone, Debug)]
+struct CellSpec {
+    r: u32,
+    c: u32,
+    text: Option<&'static str>,
+    number: Option<f64>,
+    formula: Option<&'static str>,
+    style: usize,
+    link: Option<&'static str>,
+}
+fn cs(r: u32, c: u32) -> CellSpec {
+    CellSpec { r, c, text: None, number: None, formula: None, style: 0, link: None }
+}
+impl CellSpec {
+    fn t(mut self, s: &'static str) -> Self {
+        self.text = Some(s);
+        self
+    }
+    fn n(mut self, x: f64) -> Self {
+        self.number = Some(x);
+        self
+    }
+    fn f(mut self, s: &'static str) -> Self {
+        self.formula = Some(s);
+        self
+    }
+    fn st(mut self, i: usize) -> Self {
+        self.style = i;
+        self
+    }
+    fn l(mut self, s: &'static str) -> Self {
+        self.link = Some(s);
+        self
+    }
+}
+
+#[derive(Clone, Debug, Default)]
+struct SheetSpec {
+    cells: Vec<CellSpec>,
+    rows: Vec<(u32, f64, bool)>,
+    cols: Vec<(u32, f64, bool)>,
+    merges: Vec<Rect>,
+    comments: Vec<(u32, u32, &'static str)>,
+    cfs: Vec<(i32, Vec<Rect>)>,
+    filter: Option<Rect>,
+}
+
+fn make_style(i: usize) -> Style {
+    let mut s = Style::default();
+    match i {
+        1 => {
+            s.get_font_mut().set_bold(true);
+        }
+        2 => {
+            s.set_background_color("FFFFFF00");
+            s.get_number_format_mut().set_format_code("0.00");
+        }
+        _ => {}
+    }
+    s
+}
+
+fn build_real_sheet(ws: &mut Worksheet, sp: &SheetSpec) {
+    for c in &sp.cells {
+        let cell = ws.get_cell_mut((c.c, c.r));
+        if let Some(t) = c.text {
+            cell.set_value_string(t);
+        }
+        if let Some(x) = c.number {
+            cell.set_value_number(x);
+        }
+        if let Some(f) = c.formula {
+            cell.set_formula(f);
+        }
+        if c.style != 0 {
+            cell.set_style(make_style(c.style));
+        }
+        if let Some(u) = c.link {
+            let mut h = Hyperlink::default();
+            h.set_url(u);
+            cell.set_hyperlink(h);
+        }
+    }
+    for (r, h, hidden) in &sp.rows {
+        let row = ws.get_row_dimension_mut(r);
+        row.set_height(*h);
+        row.set_hidden(*hidden);
+    }
+    for (c, w, hidden) in &sp.cols {
+        let col = ws.get_column_dimension_by_number_mut(c);
+        col.set_width(*w);
+        col.set_hidden(*hidden);
+    }
+    for m in &sp.merges {
+        ws.add_merge_cells(m.a1());
+    }
+    for (r, c, t) in &sp.comments {
+        let mut cm = Comment::default();
+        cm.new_comment((*c, *r));
+        cm.set_text_string(*t);
+        cm.set_author("uv");
+        ws.add_comments(cm);
+    }
+    for (prio, rects) in &sp.cfs {
+        let mut cf = ConditionalFormatting::default();
+        let mut sq = SequenceOfReferences::default();
+        sq.set_sqref(rects.iter().map(|r| r.a1()).collect::<Vec<_>>().join(" "));
+        cf.set_sequence_of_references(sq);
+        let mut rule = ConditionalFormattingRule::default();
+        rule.set_priority(*prio);
+        cf.add_conditional_collection(rule);
+        ws.add_conditional_formatting_collection(cf);
+    }
+    if let Some(f) = &sp.filter {
+        ws.set_auto_filter(f.a1());
+    }
+}
+
+fn fmt_number(x: f64) -> String {
+    // the seeds only use numbers whose shortest representation is unambiguous
+    format!("{}", x)
+}
+
+fn build_model_sheet(name: &str, sp: &SheetSpec) -> RefSheet {
+    let mut m = RefSheet::default();
+    m.name = name.to_string();
+    for c in &sp.cells {
+        let (value, kind) = match (c.text, c.number) {
+            (_, Some(x)) => (fmt_number(x), "n"),
+            (Some(t), None) => (t.to_string(), "s"),
+            (None, None) => (String::new(), ""),
+        };
+        m.cells.insert((c.r, c.c), RefCell { value, kind: kind.to_string(), formula: c.formula.unwrap_or("").to_string(), style: STYLE_TAGS[c.style].to_string(), link: c.link.map(|s| s.to_string()) });
+    }
+    for (r, h, hidden) in &sp.rows {
+        m.rows.insert(*r, DimSet { size_bits: h.to_bits(), hidden: *hidden });
+    }
+    for (c, w, hidden) in &sp.cols {
+        m.cols.insert(*c, DimSet { size_bits: w.to_bits(), hidden: *hidden });
+    }
+    m.merges = sp.merges.clone();
+    for (r, c, t) in &sp.comments {
+        m.comments.entry((*r, *c)).or_default().push(t.to_string());
+    }
+    for (prio, rects) in &sp.cfs {
+        m.cfs.push((prio.to_string(), rects.clone()));
+    }
+    m.filter = sp.filter;
+    m.normalise();
+    m
+}
+
+fn rc(s: &str) -> Rect {
+    // tiny A1 parser for seed literals only (own code)
+    fn cell(t: &str) -> (u32, u32) {
+        let letters: String = t.chars().take_while(|c| c.is_ascii_alphabetic()).collect();
+        let digits: String = t.chars().skip_while(|c| c.is_ascii_alphabetic()).collect();
+        let mut c = 0u32;
+        for ch in letters.chars() {
+            c = c * 26 + (ch as u32 - 'A' as u32 + 1);
+        }
+        (digits.parse().unwrap(), c)
+    }
+    let mut it = s.split(':');
+    let a = cell(it.next().unwrap());
+    let b = it.next().map(cell).unwrap_or(a);
+    Rect::new(a.0, a.1, b.0, b.1)
+}
+
+/// the populated second sheet shared by all seeds
+fn other_sheet_spec() -> SheetSpec {
+    SheetSpec {
+        cells: vec![cs(1, 1).t("o-A1").l("https://example.com/o1"), cs(2, 2).t("o-B2").st(1), cs(4, 3).f("PI()").st(2), cs(5, 1).n(42.0), cs(3, 4).t("o-D3")],
+        rows: vec![(3, 22.5, false), (5, 31.0, true)],
+        cols: vec![(2, 15.0, false), (4, 3.5, true)],
+        merges: vec![rc("B3:C4")],
+        comments: vec![(2, 2, "o-note-B2"), (5, 4, "o-note-D5")],
+        cfs: vec![(7, vec![rc("A2:B3")])],
+        filter: None,
+    }
+}
+
+const SEED_NAMES: [&str; 4] = ["empty", "dense", "annotated", "grid-limits"];
+
+fn seed_specs(seed: usize) -> [SheetSpec; 2] {
+    let first = match seed {
+        0 => SheetSpec::default(),
+        1 => {
+            // dense 4x4 block with values, two styles, reference-free formulas, row heights, column widths
+            let mut cells = vec![];
+            const TXT: [[&str; 4]; 4] = [["r1c1", "r1c2", "r1c3", "r1c4"], ["r2c1", "r2c2", "r2c3", "r2c4"], ["r3c1", "r3c2", "r3c3", "r3c4"], ["r4c1", "r4c2", "r4c3", "r4c4"]];
+            for r in 1..=4u32 {
+                for c in 1..=4u32 {
+                    let mut x = cs(r, c);
+                    if (r, c) == (3, 2) {
+                        x = x.f("1+1");
+                    } else if (r, c) == (1, 4) {
+                        x = x.f("PI()").n(3.5);
+                    } else if (r + c) % 3 == 0 {
+                        x = x.n((r * 10 + c) as f64 + 0.25);
+                    } else {
+                        x = x.t(TXT[(r - 1) as usize][(c - 1) as usize]);
+                    }
+                    if r == c {
+                        x = x.st(1);
+                    } else if c == 3 {
+                        x = x.st(2);
+                    }
+                    cells.push(x);
+                }
+            }
+            SheetSpec { cells, rows: vec![(2, 30.0, false), (4, 12.5, false)], cols: vec![(2, 20.0, false), (4, 5.0, true)], ..Default::default() }
+        }
+        2 => SheetSpec {
+            cells: vec![cs(1, 1).t("a-A1"), cs(2, 2).t("a-B2").l("https://example.com/b2"), cs(3, 3).n(7.0).l("https://example.com/c3").st(1), cs(5, 3).t("a-C5"), cs(2, 4).t("a-D2").st(2), cs(6, 5).f("1+1")],
+            rows: vec![(2, 18.0, false), (5, 40.0, true)],
+            cols: vec![(3, 11.0, false)],
+            merges: vec![rc("A1:B2"), rc("C3:C5"), rc("B2:D2")],
+            comments: vec![(1, 1, "note-A1"), (4, 3, "note-C4"), (2, 4, "note-D2")],
+            cfs: vec![(1, vec![rc("A1:B3"), rc("D4:D6")]), (2, vec![rc("C2")])],
+            filter: Some(rc("B2:D6")),
+        },
+        _ => SheetSpec {
+            cells: vec![cs(1, 1).t("g-A1"), cs(1, MAXC).t("g-XFD1").st(1), cs(MAXR, 1).n(9.0), cs(MAXR, MAXC).t("g-XFD1048576").l("https://example.com/last")],
+            rows: vec![(MAXR, 14.0, false)],
+            cols: vec![(MAXC, 9.5, false)],
+            merges: vec![rc("XFC1048575:XFD1048576")],
+            comments: vec![(MAXR, MAXC, "note-last")],
+            cfs: vec![(3, vec![rc("XFD1048575:XFD1048576")])],
+            filter: None,
+        },
+    };
+    [first, other_sheet_spec()]
+}
+
+fn build_seed(seed: usize) -> (Spreadsheet, RefBook) {
+    let specs = seed_specs(seed);
+    let mut book = Spreadsheet::default();
+    let mut model = vec![];
+    for (i, sp) in specs.iter().enumerate() {
+        let ws = book.new_sheet(NAMES[i]).expect("new_sheet");
+        build_real_sheet(ws, sp);
+        model.push(build_model_sheet(NAMES[i], sp));
+    }
+    (book, model)
+}
+
+// =================================================================================================
+// operations
+
+#[derive(Clone, Copy, Debug, PartialEq, Eq)]
+pub enum Level {
+    /// Worksheet::insert_new_row & co on sheet 0
+    Sheet,
+    /// Spreadsheet::insert_new_row & co naming sheet i
+    Book(usize),
+}
+
+#[derive(Clone, Debug)]
+pub enum Op {
+    Ins { ax: Axis, level: Level, p: u32, n: u32 },
+    Rem { ax: Axis, level: Level, p: u32, n: u32 },
+    Move { src: Rect, dr: i32, dc: i32 },
+    Copy { src: Rect, dr: i32, dc: i32 },
+    Set { r: u32, c: u32 },
+    Del { r: u32, c: u32 },
+    /// insert(p,n) immediately followed by remove(p,n) (sheet-level, sheet 0): must be the identity
+    Law { ax: Axis, p: u32, n: u32 },
+}
+
+impl Op {
+    fn name(&self) -> String {
+        match self {
+            Op::Ins { ax, .. } => format!("insert-{}", ax.name()),
+            Op::Rem { ax, .. } => format!("remove-{}", ax.name()),
+            Op::Move { .. } => "move".into(),
+            Op::Copy { .. } => "copy".into(),
+            Op::Set { .. } => "set-cell".into(),
+            Op::Del { .. } => "remove-cell".into(),
+            Op::Law { ax, .. } => format!("law-{}", ax.name()),
+        }
+    }
+    fn level(&self) -> Level {
+        match self {
+            Op::Ins { level, .. } | Op::Rem { level, .. } => *level,
+            _ => Level::Sheet,
+        }
+    }
+    fn level_tag(&self) -> &'static str {
+        match self.level() {
+            Level::Sheet => "sheet-level",
+            Level::Book(_) => "wb-level",
+        }
+    }
+    fn target(&self) -> usize {
+        match self.level() {
+            Level::Sheet => 0,
+            Level::Book(i) => i,
+        }
+    }
+    fn to_json(&self) -> Value {
+        match self {
+            Op::Ins { ax, level, p, n } | Op::Rem { ax, level, p, n } => {
+                let call = match (self, ax) {
+                    (Op::Ins { .. }, Axis::Row) => "insert_new_row",
+                    (Op::Ins { .. }, Axis::Col) => "insert_new_column_by_index",
+                    (_, Axis::Row) => "remove_row",
+                    (_, Axis::Col) => "remove_column_by_index",
+                };
+                match level {
+                    Level::Sheet => json!({"call": format!("Worksheet({})::{}", NAMES[0], call), "p": p, "n": n}),
+                    Level::Book(i) => json!({"call": format!("Spreadsheet::{}", call), "sheet": NAMES[*i], "p": p, "n": n}),
+                }
+            }
+            Op::Move { src, dr, dc } => json!({"call": "Worksheet(Sheet1)::move_range", "range": src.a1(), "row": dr, "column": dc}),
+            Op::Copy { src, dr, dc } => json!({"call": "Worksheet(Sheet1)::copy_range", "range": src.a1(), "row": dr, "column": dc}),
+            Op::Set { r, c } => json!({"call": "Worksheet(Sheet1)::set_cell", "cell": a1(*r, *c), "value": format!("Z{}", a1(*r, *c))}),
+            Op::Del { r, c } => json!({"call": "Worksheet(Sheet1)::remove_cell", "cell": a1(*r, *c)}),
+            Op::Law { ax, p, n } => json!({"call": format!("Worksheet(Sheet1)::insert then remove {}", ax.name()), "p": p, "n": n}),
+        }
+    }
+}
+
+fn apply_real(book: &mut Spreadsheet, op: &Op) {
+    match op {
+        Op::Ins { ax, level: Level::Sheet, p, n } => {
+            let ws = book.get_sheet_mut(&0).unwrap();
+            match ax {
+                Axis::Row => ws.insert_new_row(p, n),
+                Axis::Col => ws.insert_new_column_by_index(p, n),
+            }
+        }
+        Op::Rem { ax, level: Level::Sheet, p, n } => {
+            let ws = book.get_sheet_mut(&0).unwrap();
+            match ax {
+                Axis::Row => ws.remove_row(p, n),
+                Axis::Col => ws.remove_column_by_index(p, n),
+            }
+        }
+        Op::Ins { ax, level: Level::Book(i), p, n } => match ax {
+            Axis::Row => book.insert_new_row(NAMES[*i], p, n),
+            Axis::Col => book.insert_new_column_by_index(NAMES[*i], p, n),
+        },
+        Op::Rem { ax, level: Level::Book(i), p, n } => match ax {
+            Axis::Row => book.remove_row(NAMES[*i], p, n),
+            Axis::Col => book.remove_column_by_index(NAMES[*i], p, n),
+        },
+        Op::Move { src, dr, dc } => {
+            book.get_sheet_mut(&0).unwrap().move_range(&src.a1(), dr, dc);
+        }
+        Op::Copy { src, dr, dc } => {
+            book.get_sheet_mut(&0).unwrap().copy_range(&src.a1(), dr, dc);
+        }
+        Op::Set { r, c } => {
+            let mut cell = Cell::default();
+            cell.get_coordinate_mut().set_col_num(*c).set_row_num(*r);
+            cell.set_value_string(format!("Z{}", a1(*r, *c)));
+            book.get_sheet_mut(&0).unwrap().set_cell(cell);
+        }
+        Op::Del { r, c } => {
+            book.get_sheet_mut(&0).unwrap().remove_cell((*c, *r));
+        }
+        Op::Law { ax, p, n } => {
+            let ws = book.get_sheet_mut(&0).unwrap();
+            match ax {
+                Axis::Row => {
+                    ws.insert_new_row(p, n);
+                    ws.remove_row(p, n);
+                }
+                Axis::Col => {
+                    ws.insert_new_column_by_index(p, n);
+                    ws.remove_column_by_index(p, n);
+                }
+            }
+        }
+    }
+}
+
+fn apply_model_sheet(sh: &mut RefSheet, op: &Op) {
+    match op {
+        Op::Ins { ax, p, n, .. } => sh.insert(*ax, *p, *n),
+        Op::Rem { ax, p, n, .. } => sh.remove(*ax, *p, *n),
+        Op::Move { src, dr, dc } => sh.move_range(src, *dr, *dc),
+        Op::Copy { src, dr, dc } => sh.copy_range(src, *dr, *dc),
+        Op::Set { r, c } => {
+            sh.cells.insert((*r, *c), RefCell { value: format!("Z{}", a1(*r, *c)), kind: "s".into(), formula: String::new(), style: STYLE_TAGS[0].into(), link: None });
+        }
+        Op::Del { r, c } => {
+            sh.cells.remove(&(*r, *c));
+        }
+        Op::Law { .. } => {}
+    }
+}
+
+// alphabets ---------------------------------------------------------------------------------------
+
+fn in_range(src: &Rect, dr: i32, dc: i32) -> bool {
+    src.r1 as i64 + dr as i64 >= 1 && src.c1 as i64 + dc as i64 >= 1 && src.r2 as i64 + dr as i64 <= MAXR as i64 && src.c2 as i64 + dc as i64 <= MAXC as i64
+}
+
+fn insrem(levels: &[Level], ps: &[u32], ns: &[u32]) -> Vec<Op> {
+    let mut v = vec![];
+    for level in levels {
+        for &n in ns {
+            for &p in ps {
+                for ax in [Axis::Row, Axis::Col] {
+                    v.push(Op::Ins { ax, level: *level, p, n });
+                    v.push(Op::Rem { ax, level: *level, p, n });
+                }
+            }
+        }
+    }
+    v
+}
+
+fn laws(pn: &[(u32, u32)]) -> Vec<Op> {
+    let mut v = vec![];
+    for &(p, n) in pn {
+        for ax in [Axis::Row, Axis::Col] {
+            v.push(Op::Law { ax, p, n });
+        }
+    }
+    v
+}
+
+/// simplest first: cell edits, sheet-level structure edits, move/copy, workbook-level edits, laws
+pub fn alphabet(name: &str) -> Vec<Op> {
+    let all_levels = [Level::Sheet, Level::Book(0), Level::Book(1)];
+    match name {
+        "full" => {
+            let mut v = vec![];
+            for (r, c) in [(1, 1), (2, 2), (3, 3)] {
+                v.push(Op::Set { r, c });
+                v.push(Op::Del { r, c });
+            }
+            v.extend(insrem(&[Level::Sheet], &[1, 2, 3, 5], &[1, 2, 4]));
+            for src in [rc("A1"), rc("A1:B2"), rc("B2:C3")] {
+                for (dr, dc) in [(0, 1), (1, 0), (-1, 0), (0, -1), (1, 1), (2, 2)] {
+                    if in_range(&src, dr, dc) {
+                        v.push(Op::Move { src, dr, dc });
+                        v.push(Op::Copy { src, dr, dc });
+                    }
+                }
+            }
+            v.extend(insrem(&[Level::Book(0), Level::Book(1)], &[1, 2, 3, 5], &[1, 2, 4]));
+            v.extend(laws(&[(1, 1), (2, 2), (5, 4)]));
+            v
+        }
+        "insrem" => {
+            let mut v = insrem(&all_levels, &[1, 2, 3], &[1, 2]);
+            v.extend(laws(&[(1, 1), (2, 2)]));
+            v
+        }
+        "insrem24" => {
+            let mut v = insrem(&[Level::Sheet], &[1, 2, 3], &[1, 2]);
+            v.extend(laws(&[(2, 1)]));
+            v
+        }
+        "unit4" => vec![
+            Op::Ins { ax: Axis::Row, level: Level::Sheet, p: 2, n: 1 },
+            Op::Rem { ax: Axis::Row, level: Level::Sheet, p: 1, n: 1 },
+            Op::Ins { ax: Axis::Col, level: Level::Sheet, p: 2, n: 1 },
+            Op::Rem { ax: Axis::Col, level: Level::Sheet, p: 1, n: 1 },
+        ],
+        _ => vec![],
+    }
+}
+
+// =================================================================================================
+// oracle
+
+#[derive(Clone, Debug)]
+struct Finding {
+    clause: &'static str,
+    symptom: String,
+    kind: &'static str,
+    align: &'static str,
+    detail: String,
+    /// extra tags (composites of other objects, qualifiers)
+    more: Vec<String>,
+}
+
+fn align_remove(s: (u32, u32), p: u32, n: u32) -> &'static str {
+    let (a, b) = s;
+    let q = p + n - 1;
+    if b < p {
+        "band-after"
+    } else if a > q {
+        "band-before"
+    } else if p <= a && b <= q {
+        "band-covers-object"
+    } else if a < p && b > q {
+        "band-inside-object"
+    } else if a < p {
+        "band-partial-overlap-end"
+    } else {
+        "band-partial-overlap-start"
+    }
+}
+fn align_insert(s: (u32, u32), p: u32) -> &'static str {
+    if p <= s.0 {
+        "band-before"
+    } else if p <= s.1 {
+        "band-inside-object"
+    } else {
+        "band-after"
+    }
+}
+
+/// (axis, p, n, is_insert) of a structural edit
+fn edit_of(op: &Op) -> Option<(Axis, u32, u32, bool)> {
+    match op {
+        Op::Ins { ax, p, n, .. } => Some((*ax, *p, *n, true)),
+        Op::Rem { ax, p, n, .. } => Some((*ax, *p, *n, false)),
+        _ => None,
+    }
+}
+fn align_of(op: &Op, span: (u32, u32)) -> &'static str {
+    match edit_of(op) {
+        Some((_, p, _, true)) => align_insert(span, p),
+        Some((_, p, n, false)) => align_remove(span, p, n),
+        None => "n/a",
+    }
+}
+
+/// every coordinate-bearing object of a model sheet as (kind, span on the edited axis)
+fn objects_on_axis(sh: &RefSheet, ax: Axis) -> Vec<(&'static str, (u32, u32))> {
+    let pick = |k: &(u32, u32)| match ax {
+        Axis::Row => (k.0, k.0),
+        Axis::Col => (k.1, k.1),
+    };
+    let mut v = vec![];
+    for (k, c) in &sh.cells {
+        v.push(("cell", pick(k)));
+        if c.link.is_some() {
+            v.push(("link", pick(k)));
+        }
+    }
+    for k in sh.comments.keys() {
+        v.push(("comment", pick(k)));
+    }
+    match ax {
+        Axis::Row => {
+            for k in sh.rows.keys() {
+                v.push(("rowdim", (*k, *k)));
+            }
+        }
+        Axis::Col => {
+            for k in sh.cols.keys() {
+                v.push(("coldim", (*k, *k)));
+            }
+        }
+    }
+    for m in &sh.merges {
+        v.push(("merge", m.span(ax)));
+    }
+    for (_, rs) in &sh.cfs {
+        for r in rs {
+            v.push(("cf", r.span(ax)));
+        }
+    }
+    if let Some(f) = &sh.filter {
+        v.push(("filter", f.span(ax)));
+    }
+    v
+}
+
+/// composite tags "<op>/<kind>/<alignment>" of the objects of `sh` (optionally one kind only) + qualifiers
+fn composites(op: &Op, sh: &RefSheet, aux: &[(&'static str, Rect)], only_kind: Option<&str>, prefix: &str) -> Vec<String> {
+    let mut out = BTreeSet::new();
+    if let Some((ax, p, n, is_ins)) = edit_of(op) {
+        let name = op.name();
+        let mut objs = objects_on_axis(sh, ax);
+        for (k, r) in aux {
+            objs.push((*k, r.span(ax)));
+        }
+        for (kind, span) in objs {
+            if let Some(k) = only_kind {
+                if k != kind {
+                    continue;
+                }
+            }
+            let al = align_of(op, span);
+            // for a whole-transition event (panic: only_kind == None) only the alignments in which the band
+            // cuts into the object are features worth naming; pure shifts are the default case
+            let trivial = al == "band-after" || (only_kind.is_none() && (al == "band-before" || al == "band-inside-object"));
+            if !trivial {
+                out.insert(format!("{}{}/{}/{}", prefix, name, kind, al));
+            }
+        }
+        // qualifier over ALL objects of the sheet: the insert pushes something over the grid limit
+        if is_ins && objects_on_axis(sh, ax).iter().any(|(_, span)| span.1 >= p && span.1 as u64 + n as u64 > ax.limit() as u64) {
+            out.insert(format!("{}near-grid-limit", prefix));
+        }
+    }
+    out.into_iter().collect()
+}
+
+fn qualifiers(op: &Op) -> Vec<String> {
+    let mut q = vec![];
+    match op {
+        Op::Ins { ax, p, .. } | Op::Rem { ax, p, .. } | Op::Law { ax, p, .. } => {
+            if *p == 1 {
+                q.push(format!("at-first-{}", ax.name()));
+            }
+        }
+        _ => {}
+    }
+    q
+}
+
+fn cell_field_diff(a: &RefCell, b: &RefCell) -> (&'static str, &'static str) {
+    // (symptom suffix, object kind)
+    if a.formula != b.formula {
+        ("formula-text-changed", "cell")
+    } else if a.style != b.style {
+        ("style-changed", "cell")
+    } else if a.link != b.link {
+        if b.link.is_none() {
+            ("link-lost", "link")
+        } else {
+            ("link-changed", "link")
+        }
+    } else if a.kind != b.kind {
+        ("kind-changed", "cell")
+    } else {
+        ("value-changed", "cell")
+    }
+}
+
+/// Point objects (cells, comments, row/column settings): classify the differences between the expected map
+/// (image of `pre` under `image`) and `got`.
+fn diff_points<K: Ord + Copy + std::fmt::Debug, V: Eq + Clone + std::fmt::Debug>(
+    clause: &'static str,
+    kind: &'static str,
+    pre: &BTreeMap<K, V>,
+    got: &BTreeMap<K, V>,
+    image: &dyn Fn(K) -> Option<K>,
+    align: &dyn Fn(K) -> &'static str,
+    field: &dyn Fn(&V, &V) -> (String, &'static str),
+    out: &mut Vec<Finding>,
+) {
+    let mut claimed: BTreeSet<K> = BTreeSet::new();
+    for (k, v) in pre {
+        if let Some(ke) = image(*k) {
+            if got.get(&ke) == Some(v) {
+                claimed.insert(ke);
+            }
+        }
+    }
+    for (k, v) in pre {
+        match image(*k) {
+            Some(ke) => {
+                if got.get(&ke) == Some(v) {
+                    continue;
+                }
+                let found = got.iter().find(|(g, gv)| !claimed.contains(*g) && *gv == v).map(|(g, _)| *g);
+                match found {
+                    Some(g) if g == *k => {
+                        claimed.insert(g);
+                        out.push(Finding { clause, symptom: format!("{}-not-shifted", kind), kind, align: align(*k), detail: format!("{} at {:?} should be at {:?}, still at {:?}", kind, k, ke, g), more: vec![] });
+                    }
+                    Some(g) => {
+                        claimed.insert(g);
+                        out.push(Finding { clause, symptom: format!("{}-shifted-wrong", kind), kind, align: align(*k), detail: format!("{} at {:?} should be at {:?}, found at {:?}", kind, k, ke, g), more: vec![] });
+                    }
+                    None => match got.get(&ke) {
+                        Some(gv) if !claimed.contains(&ke) => {
+                            claimed.insert(ke);
+                            let (sfx, k2) = field(v, gv);
+                            out.push(Finding { clause, symptom: format!("{}-{}", kind, sfx), kind: k2, align: align(*k), detail: format!("{} {:?}->{:?}: expected {:?}, got {:?}", kind, k, ke, v, gv), more: vec![] });
+                        }
+                        _ => {
+                            out.push(Finding { clause, symptom: format!("{}-lost", kind), kind, align: align(*k), detail: format!("{} at {:?} ({:?}) should be at {:?}, is nowhere", kind, k, v, ke), more: vec![] });
+                        }
+                    },
+                }
+            }
+            None => {
+                let found = got.iter().find(|(g, gv)| !claimed.contains(*g) && *gv == v).map(|(g, _)| *g);
+                if let Some(g) = found {
+                    claimed.insert(g);
+                    out.push(Finding { clause, symptom: format!("{}-in-removed-band-kept", kind), kind, align: align(*k), detail: format!("{} at {:?} lay inside the removed band, still present at {:?}", kind, k, g), more: vec![] });
+                }
+            }
+        }
+    }
+    for (g, gv) in got {
+        if !claimed.contains(g) {
+            let dup = pre.values().any(|v| v == gv);
+            out.push(Finding { clause, symptom: format!("{}-{}", kind, if dup { "duplicated" } else { "unexpected" }), kind, align: "n/a", detail: format!("unexpected {} at {:?}: {:?}", kind, g, gv), more: vec![] });
+        }
+    }
+}
+
+/// Rectangle objects: (tag, rect) multisets.
+fn diff_rects(clause: &'static str, kind: &'static str, pre: &[(String, Rect)], got: &[(String, Rect)], image: &dyn Fn(&Rect) -> Option<Rect>, align: &dyn Fn(&Rect) -> &'static str, out: &mut Vec<Finding>) {
+    if pre.len() == got.len() {
+        // the library adjusts its list in place: pair i-th with i-th (naming only)
+        let mut findings = vec![];
+        let mut ok = true;
+        for (o, g) in pre.iter().zip(got.iter()) {
+            if o.0 != g.0 {
+                ok = false;
+                break;
+            }
+            let al = align(&o.1);
+            match image(&o.1) {
+                Some(e) if e == g.1 => {}
+                Some(e) => {
+                    let sym = match al {
+                        "band-before" => {
+                            if g.1 == o.1 {
+                                "not-shifted"
+                            } else {
+                                "shifted-wrong"
+                            }
+                        }
+                        "band-inside-object" => "resize-wrong",
+                        "band-partial-overlap-start" | "band-partial-overlap-end" => "partial-overlap-wrong",
+                        "band-after" => "changed-outside-band",
+                        _ => "changed-by-unrelated-op",
+                    };
+                    findings.push(Finding { clause, symptom: format!("{}-{}", kind, sym), kind, align: al, detail: format!("{} {} should become {}, got {}", kind, o.1.a1(), e.a1(), fmt_rect(&g.1)), more: vec![] });
+                }
+                None => findings.push(Finding { clause, symptom: format!("{}-in-removed-band-kept", kind), kind, align: al, detail: format!("{} {} lay entirely inside the removed band, still present as {}", kind, o.1.a1(), fmt_rect(&g.1)), more: vec![] }),
+            }
+        }
+        if ok {
+            out.extend(findings);
+            return;
+        }
+    }
+    let mut left: Vec<(String, Rect)> = got.to_vec();
+    let mut wrong = vec![];
+    let mut covered = vec![];
+    for o in pre {
+        match image(&o.1) {
+            Some(e) => {
+                if let Some(i) = left.iter().position(|x| x.0 == o.0 && x.1 == e) {
+                    left.remove(i);
+                } else {
+                    wrong.push((o.clone(), e));
+                }
+            }
+            None => covered.push(o.clone()),
+        }
+    }
+    for (o, e) in wrong {
+        let al = align(&o.1);
+        if left.is_empty() {
+            out.push(Finding { clause, symptom: format!("{}-lost", kind), kind, align: al, detail: format!("{} {} should become {}, is gone", kind, o.1.a1(), e.a1()), more: vec![] });
+            continue;
+        }
+        let (i, unchanged) = match left.iter().position(|x| *x == o) {
+            Some(i) => (i, true),
+            None => (left.iter().position(|x| x.0 == o.0).unwrap_or(0), false),
+        };
+        let g = left.remove(i);
+        let sym = match al {
+            "band-before" => {
+                if unchanged {
+                    "not-shifted"
+                } else {
+                    "shifted-wrong"
+                }
+            }
+            "band-inside-object" => "resize-wrong",
+            "band-partial-overlap-start" | "band-partial-overlap-end" => "partial-overlap-wrong",
+            "band-after" => "changed-outside-band",
+            _ => "changed-by-unrelated-op",
+        };
+        out.push(Finding { clause, symptom: format!("{}-{}", kind, sym), kind, align: al, detail: format!("{} {} should become {}, got {}", kind, o.1.a1(), e.a1(), fmt_rect(&g.1)), more: vec![] });
+    }
+    for o in covered {
+        if left.is_empty() {
+            break;
+        }
+        let i = left.iter().position(|x| x.0 == o.0).unwrap_or(0);
+        let g = left.remove(i);
+        out.push(Finding { clause, symptom: format!("{}-in-removed-band-kept", kind), kind, align: align(&o.1), detail: format!("{} {} lay entirely inside the removed band, still present as {}", kind, o.1.a1(), fmt_rect(&g.1)), more: vec![] });
+    }
+    for g in left {
+        out.push(Finding { clause, symptom: format!("{}-unexpected", kind), kind, align: "n/a", detail: format!("unexpected {} {}", kind, fmt_rect(&g.1)), more: vec![] });
+    }
+}
+
+fn fmt_rect(r: &Rect) -> String {
+    format!("{} (rows {}..{}, cols {}..{})", r.a1(), r.r1, r.r2, r.c1, r.c2)
+}
+
+fn tagged(v: &[Rect]) -> Vec<(String, Rect)> {
+    v.iter().map(|r| (String::new(), *r)).collect()
+}
+fn cf_flat(v: &[(String, Vec<Rect>)]) -> Vec<(String, Rect)> {
+    v.iter().flat_map(|(t, rs)| rs.iter().map(move |r| (t.clone(), *r))).collect()
+}
+fn comments_flat(m: &BTreeMap<(u32, u32), Vec<String>>) -> BTreeMap<(u32, u32), Vec<String>> {
+    m.clone()
+}
+
+/// Differences of the non-cell parts when the operation must leave them alone.
+fn diff_untouched_annotations(clause: &'static str, pre: &RefSheet, got: &RefSheet, out: &mut Vec<Finding>) {
+    let sym = |k: &str| format!("{}-changed-by-cell-op", k);
+    if pre.rows != got.rows {
+        out.push(Finding { clause, symptom: sym("rowdim"), kind: "rowdim", align: "n/a", detail: format!("row settings {:?} -> {:?}", pre.rows, got.rows), more: vec![] });
+    }
+    if pre.cols != got.cols {
+        out.push(Finding { clause, symptom: sym("coldim"), kind: "coldim", align: "n/a", detail: format!("column settings {:?} -> {:?}", pre.cols, got.cols), more: vec![] });
+    }
+    if pre.merges != got.merges {
+        out.push(Finding { clause, symptom: sym("merge"), kind: "merge", align: "n/a", detail: format!("merges {:?} -> {:?}", pre.merges, got.merges), more: vec![] });
+    }
+    if pre.comments != got.comments {
+        out.push(Finding { clause, symptom: sym("comment"), kind: "comment", align: "n/a", detail: format!("comments {:?} -> {:?}", pre.comments, got.comments), more: vec![] });
+    }
+    if pre.cfs != got.cfs {
+        out.push(Finding { clause, symptom: sym("cf"), kind: "cf", align: "n/a", detail: format!("conditional formats {:?} -> {:?}", pre.cfs, got.cfs), more: vec![] });
+    }
+    if pre.filter != got.filter {
+        out.push(Finding { clause, symptom: sym("filter"), kind: "filter", align: "n/a", detail: format!("filter {:?} -> {:?}", pre.filter, got.filter), more: vec![] });
+    }
+}
+
+/// insert/remove on the target sheet
+fn classify_relocation(op: &Op, pre: &RefSheet, got: &RefSheet, raw_merges: (&Vec<(String, Rect)>, &Vec<(String, Rect)>), raw_cfs: (&Vec<(String, Rect)>, &Vec<(String, Rect)>), out: &mut Vec<Finding>) {
+    let (ax, p, n, is_ins) = edit_of(op).unwrap();
+    let clause = "relocation";
+    let key_image = |k: (u32, u32)| if is_ins { Some(ins_key(k, ax, p, n)) } else { rem_key(k, ax, p, n) };
+    let key_align = |k: (u32, u32)| {
+        let x = match ax {
+            Axis::Row => k.0,
+            Axis::Col => k.1,
+        };
+        align_of(op, (x, x))
+    };
+    let cell_field = |a: &RefCell, b: &RefCell| {
+        let (s, k) = cell_field_diff(a, b);
+        (s.to_string(), k)
+    };
+    diff_points(clause, "cell", &pre.cells, &got.cells, &key_image, &key_align, &cell_field, out);
+    let comment_field = |_: &Vec<String>, _: &Vec<String>| ("text-changed".to_string(), "comment");
+    diff_points(clause, "comment", &comments_flat(&pre.comments), &comments_flat(&got.comments), &key_image, &key_align, &comment_field, out);
+    let dim_field = |_: &DimSet, _: &DimSet| ("changed".to_string(), "rowdim");
+    let dim_field_c = |_: &DimSet, _: &DimSet| ("changed".to_string(), "coldim");
+    let line_image = |k: u32| if is_ins { Some(ins_point(k, p, n)) } else { rem_point(k, p, n) };
+    let line_align = |k: u32| align_of(op, (k, k));
+    let ident = |k: u32| Some(k);
+    let other_axis = |_: u32| "other-axis";
+    match ax {
+        Axis::Row => {
+            diff_points(clause, "row-setting", &pre.rows, &got.rows, &line_image, &line_align, &dim_field, out);
+            diff_points(clause, "col-setting", &pre.cols, &got.cols, &ident, &other_axis, &dim_field_c, out);
+        }
+        Axis::Col => {
+            diff_points(clause, "col-setting", &pre.cols, &got.cols, &line_image, &line_align, &dim_field_c, out);
+            diff_points(clause, "row-setting", &pre.rows, &got.rows, &ident, &other_axis, &dim_field, out);
+        }
+    }
+    let rect_image = |r: &Rect| if is_ins { Some(ins_rect(r, ax, p, n)) } else { rem_rect(r, ax, p, n) };
+    let rect_align = |r: &Rect| align_of(op, r.span(ax));
+    diff_rects(clause, "merge", raw_merges.0, raw_merges.1, &rect_image, &rect_align, out);
+    diff_rects(clause, "cf", raw_cfs.0, raw_cfs.1, &rect_image, &rect_align, out);
+    let f0: Vec<Rect> = pre.filter.iter().cloned().collect();
+    let f1: Vec<Rect> = got.filter.iter().cloned().collect();
+    diff_rects(clause, "filter", &tagged(&f0), &tagged(&f1), &rect_image, &rect_align, out);
+    // kinds used in tags: row-setting -> rowdim, col-setting -> coldim
+    for f in out.iter_mut() {
+        if f.kind == "row-setting" {
+            f.kind = "rowdim";
+        } else if f.kind == "col-setting" {
+            f.kind = "coldim";
+        }
+    }
+}
+
+/// move / copy on sheet 0: classify per cell by region
+fn classify_move_copy(op: &Op, pre: &RefSheet, exp: &RefSheet, got: &RefSheet, out: &mut Vec<Finding>) {
+    let (src, dr, dc, is_move) = match op {
+        Op::Move { src, dr, dc } => (*src, *dr, *dc, true),
+        Op::Copy { src, dr, dc } => (*src, *dr, *dc, false),
+        _ => return,
+    };
+    let clause = if is_move { "move" } else { "copy" };
+    let dst = src.translated(dr, dc);
+    let keys: BTreeSet<(u32, u32)> = exp.cells.keys().chain(got.cells.keys()).cloned().collect();
+    for k in keys {
+        let e = exp.cells.get(&k);
+        let g = got.cells.get(&k);
+        if e == g {
+            continue;
+        }
+        let in_src = src.contains(k.0, k.1);
+        let in_dst = dst.contains(k.0, k.1);
+        // is k the image of a source cell?
+        let from = ((k.0 as i64 - dr as i64), (k.1 as i64 - dc as i64));
+        let is_image = in_dst && from.0 >= 1 && from.1 >= 1 && pre.cells.contains_key(&(from.0 as u32, from.1 as u32));
+        let sym: String = if is_image {
+            match (e, g) {
+                (Some(_), None) => format!("{}-destination-missing", clause),
+                (Some(a), Some(b)) => format!("{}-content-changed:{}", clause, cell_field_diff(a, b).0),
+                _ => format!("{}-destination-unexpected", clause),
+            }
+        } else if in_dst {
+            if is_move {
+                "move-destination-not-cleared".to_string()
+            } else {
+                // the source position was blank: the destination must keep what it had
+                "copy-blank-erased-destination".to_string()
+            }
+        } else if in_src {
+            if is_move {
+                "move-source-not-empty".to_string()
+            } else {
+                "copy-source-changed".to_string()
+            }
+        } else {
+            format!("{}-touched-outside", clause)
+        };
+        out.push(Finding { clause, symptom: sym, kind: "cell", align: "n/a", detail: format!("{}: expected {:?}, got {:?}", a1(k.0, k.1), e, g), more: vec![] });
+    }
+    diff_untouched_annotations(clause, pre, got, out);
+}
+
+fn move_copy_tags(op: &Op, pre: &RefSheet) -> Vec<String> {
+    let (src, dr, dc) = match op {
+        Op::Move { src, dr, dc } | Op::Copy { src, dr, dc } => (*src, *dr, *dc),
+        _ => return vec![],
+    };
+    let dst = src.translated(dr, dc);
+    let overlap = !(dst.r1 > src.r2 || dst.r2 < src.r1 || dst.c1 > src.c2 || dst.c2 < src.c1);
+    let n_src = pre.cells.keys().filter(|k| src.contains(k.0, k.1)).count() as u32;
+    let area = (src.r2 - src.r1 + 1) * (src.c2 - src.c1 + 1);
+    let dst_occupied = pre.cells.keys().any(|k| dst.contains(k.0, k.1) && !src.contains(k.0, k.1));
+    let mut t = vec![];
+    t.push(if overlap { "src-dst-overlap" } else { "src-dst-disjoint" }.to_string());
+    t.push(if area == 1 { "single-cell-range" } else { "block-range" }.to_string());
+    t.push(if n_src == 0 { "src-empty" } else if n_src < area { "src-partly-blank" } else { "src-full" }.to_string());
+    if dst_occupied {
+        t.push("dst-occupied".to_string());
+    }
+    t
+}
+
+fn first_diff_kind(a: &RefSheet, b: &RefSheet) -> &'static str {
+    if a.cells != b.cells {
+        "cell"
+    } else if a.rows != b.rows {
+        "rowdim"
+    } else if a.cols != b.cols {
+        "coldim"
+    } else if a.merges != b.merges {
+        "merge"
+    } else if a.comments != b.comments {
+        "comment"
+    } else if a.cfs != b.cfs {
+        "cf"
+    } else if a.filter != b.filter {
+        "filter"
+    } else {
+        "none"
+    }
+}
+
+fn sheet_diff_text(exp: &RefSheet, got: &RefSheet) -> String {
+    let mut s = String::new();
+    let keys: BTreeSet<(u32, u32)> = exp.cells.keys().chain(got.cells.keys()).cloned().collect();
+    let mut n = 0;
+    for k in keys {
+        if exp.cells.get(&k) != got.cells.get(&k) && n < 4 {
+            s.push_str(&format!("cell {}: expected {:?}, got {:?}; ", a1(k.0, k.1), exp.cells.get(&k).map(|c| (&c.value, &c.formula)), got.cells.get(&k).map(|c| (&c.value, &c.formula))));
+            n += 1;
+        }
+    }
+    if exp.rows != got.rows {
+        s.push_str(&format!("row settings: expected rows {:?}, got {:?}; ", exp.rows.keys().collect::<Vec<_>>(), got.rows.keys().collect::<Vec<_>>()));
+    }
+    if exp.cols != got.cols {
+        s.push_str(&format!("column settings: expected cols {:?}, got {:?}; ", exp.cols.keys().collect::<Vec<_>>(), got.cols.keys().collect::<Vec<_>>()));
+    }
+    if exp.merges != got.merges {
+        s.push_str(&format!("merges: expected {:?}, got {:?}; ", exp.merges.iter().map(|r| r.a1()).collect::<Vec<_>>(), got.merges.iter().map(fmt_rect).collect::<Vec<_>>()));
+    }
+    if exp.comments != got.comments {
+        s.push_str(&format!("comments: expected {:?}, got {:?}; ", exp.comments.keys().map(|k| a1(k.0, k.1)).collect::<Vec<_>>(), got.comments.keys().map(|k| a1(k.0, k.1)).collect::<Vec<_>>()));
+    }
+    if exp.cfs != got.cfs {
+        s.push_str(&format!("cf: expected {:?}, got {:?}; ", exp.cfs, got.cfs));
+    }
+    if exp.filter != got.filter {
+        s.push_str(&format!("filter: expected {:?}, got {:?}; ", exp.filter.map(|r| r.a1()), got.filter.map(|r| fmt_rect(&r))));
+    }
+    s
+}
+
+// =================================================================================================
+// the machine
+
+#[derive(Clone)]
+pub struct Node {
+    book: Spreadsheet,
+    /// reference model (equal to the view of the real object after every transition: re-synchronised on divergence)
+    model: RefBook,
+    key: u128,
+    /// in-grid problems already present in this state: (sheet, symptom, kind)
+    grid: BTreeSet<(usize, &'static str, &'static str)>,
+    /// per sheet: merges / conditional-format rectangles in library order, auxiliary objects (comment boxes)
+    raw: Vec<(Vec<(String, Rect)>, Vec<(String, Rect)>, Vec<(&'static str, Rect)>)>,
+}
+
+pub struct C07Machine {
+    ops: Vec<Op>,
+    resyncs: StdCell<u64>,
+    suppressed: StdCell<u64>,
+    law_checks: StdCell<u64>,
+    pruned: StdCell<u64>,
+    emitted: StdRefCell<BTreeMap<(String, String, Vec<String>), u32>>,
+}
+
+impl C07Machine {
+    pub fn new(alpha: &str) -> C07Machine {
+        C07Machine { ops: alphabet(alpha), resyncs: StdCell::new(0), suppressed: StdCell::new(0), law_checks: StdCell::new(0), pruned: StdCell::new(0), emitted: StdRefCell::new(BTreeMap::new()) }
+    }
+
+    pub fn init(&self, seed: usize) -> Node {
+        let (book, model) = build_seed(seed);
+        let dumps: Vec<SheetDump> = book.get_sheet_collection_no_check().iter().map(dump_sheet).collect();
+        let key = state_key(&dumps);
+        let mut grid = BTreeSet::new();
+        for (i, d) in dumps.iter().enumerate() {
+            for (s, k) in grid_problems(&d.coords) {
+                grid.insert((i, s, k));
+            }
+        }
+        let raw = dumps.iter().map(|d| (d.raw_merges.clone(), d.raw_cfs.clone(), d.aux.clone())).collect();
+        Node { book, model, key, grid, raw }
+    }
+
+    fn emit(&self, out: &mut Vec<Violation>, op: &Op, f: Finding) {
+        let mut tags: Vec<String> = vec![op.name(), op.level_tag().to_string(), f.kind.to_string()];
+        if f.align != "n/a" {
+            tags.push(f.align.to_string());
+            tags.push(format!("{}/{}/{}", op.name(), f.kind, f.align));
+        }
+        for q in qualifiers(op) {
+            tags.push(q);
+        }
+        for m in f.more {
+            if !tags.contains(&m) {
+                tags.push(m);
+            }
+        }
+        let class = (f.clause.to_string(), f.symptom.clone(), tags.clone());
+        let mut em = self.emitted.borrow_mut();
+        let c = em.entry(class).or_insert(0);
+        if *c >= KEEP_PER_CLASS_PER_CASE {
+            self.suppressed.set(self.suppressed.get() + 1);
+            return;
+        }
+        *c += 1;
+        out.push(Violation { clause: f.clause.to_string(), symptom: f.symptom, tags, case: Value::Null, detail: f.detail });
+    }
+}
+
+fn state_key(dumps: &[SheetDump]) -> u128 {
+    let mut s = String::new();
+    for d in dumps {
+        s.push_str(&format!("{:?}|{}||", d.view, d.extra));
+    }
+    key_of(&s)
+}
+
+impl Machine for C07Machine {
+    type S = Node;
+    type Op = Op;
+
+    fn ops(&self, _s: &Node, _depth: usize) -> Vec<Op> {
+        self.ops.clone()
+    }
+    fn op_json(&self, op: &Op) -> Value {
+        op.to_json()
+    }
+    fn key(&self, s: &Node) -> u128 {
+        s.key
+    }
+
+    fn step(&self, s: &Node, op: &Op, out: &mut Vec<Violation>) -> Option<Node> {
+        let t = op.target();
+        let nsheets = s.model.len();
+        let wb = matches!(op.level(), Level::Book(_));
+        // ---- the implementation
+        let mut book = s.book.clone();
+        let r = std::panic::catch_unwind(std::panic::AssertUnwindSafe(|| apply_real(&mut book, op)));
+        if let Err(e) = r {
+            let msg = panic_msg(&e);
+            let mut more = composites(op, &s.model[t], &s.raw[t].2, None, "");
+            if wb {
+                for i in 0..nsheets {
+                    if i != t {
+                        more.extend(composites(op, &s.model[i], &s.raw[i].2, None, "other-sheet:"));
+                    }
+                }
+            }
+            if matches!(op, Op::Move { .. } | Op::Copy { .. }) {
+                more.extend(move_copy_tags(op, &s.model[t]));
+            }
+            self.emit(out, op, Finding { clause: "no-panic", symptom: format!("panic:{}", panic_class(&msg)), kind: "any", align: "n/a", detail: format!("{} panicked: {}", op.to_json(), msg), more });
+            return None;
+        }
+        // ---- the reference
+        let mut exp = s.model.clone();
+        apply_model_sheet(&mut exp[t], op);
+        if matches!(op, Op::Law { .. }) {
+            self.law_checks.set(self.law_checks.get() + 1);
+        }
+        // ---- observe
+        let dumps: Vec<SheetDump> = book.get_sheet_collection_no_check().iter().map(dump_sheet).collect();
+        let mut diverged = dumps.len() != nsheets;
+        if diverged {
+            self.emit(out, op, Finding { clause: "other-sheets-untouched", symptom: "sheet-count-changed".into(), kind: "sheet", align: "n/a", detail: format!("{} sheets -> {}", nsheets, dumps.len()), more: vec![] });
+            return None;
+        }
+        // other sheets untouched
+        for i in 0..nsheets {
+            if i == t {
+                continue;
+            }
+            let got = &dumps[i].view;
+            if *got != exp[i] {
+                diverged = true;
+                // signature of "the edit was applied to this sheet as well": its point objects equal the image under the same edit
+                let mut like = s.model[i].clone();
+                apply_model_sheet(&mut like, op);
+                let same_points = like.cells == got.cells && like.comments == got.comments && like.rows == got.rows && like.cols == got.cols;
+                let sym = if edit_of(op).is_some() && same_points { "other-sheet-shifted-like-target" } else { "other-sheet-modified" };
+                self.emit(
+                    out,
+                    op,
+                    Finding {
+                        clause: "other-sheets-untouched",
+                        symptom: sym.into(),
+                        kind: "other-sheet",
+                        align: "n/a",
+                        detail: format!("{} on {} changed {}: {}", op.to_json(), NAMES[t], NAMES[i], sheet_diff_text(&exp[i], got)),
+                        more: vec![],
+                    },
+                );
+            }
+        }
+        // target sheet
+        {
+            let got = &dumps[t].view;
+            if *got != exp[t] {
+                diverged = true;
+                let mut fs: Vec<Finding> = vec![];
+                match op {
+                    Op::Ins { .. } | Op::Rem { .. } => classify_relocation(op, &s.model[t], got, (&s.raw[t].0, &dumps[t].raw_merges), (&s.raw[t].1, &dumps[t].raw_cfs), &mut fs),
+                    Op::Move { .. } | Op::Copy { .. } => {
+                        classify_move_copy(op, &s.model[t], &exp[t], got, &mut fs);
+                        let extra = move_copy_tags(op, &s.model[t]);
+                        for f in fs.iter_mut() {
+                            f.more.extend(extra.clone());
+                        }
+                    }
+                    Op::Set { .. } | Op::Del { .. } => {
+                        fs.push(Finding { clause: "cell-edit", symptom: format!("{}-wrong:{}", op.name(), first_diff_kind(&exp[t], got)), kind: first_diff_kind(&exp[t], got), align: "n/a", detail: sheet_diff_text(&exp[t], got), more: vec![] });
+                    }
+                    Op::Law { .. } => {
+                        let k = first_diff_kind(&exp[t], got);
+                        fs.push(Finding { clause: "undo-law", symptom: format!("insert-remove-not-identity:{}", k), kind: k, align: "n/a", detail: format!("remove(p,n) after insert(p,n) changed the sheet: {}", sheet_diff_text(&exp[t], got)), more: vec![] });
+                    }
+                }
+                if fs.is_empty() {
+                    fs.push(Finding { clause: "relocation", symptom: format!("unclassified-difference:{}", first_diff_kind(&exp[t], got)), kind: first_diff_kind(&exp[t], got), align: "n/a", detail: sheet_diff_text(&exp[t], got), more: vec![] });
+                }
+                // one violation per (symptom, kind, alignment) of this transition
+                let mut seen: BTreeSet<(String, &'static str, &'static str)> = BTreeSet::new();
+                for f in fs {
+                    if seen.insert((f.symptom.clone(), f.kind, f.align)) {
+                        let mut f = f;
+                        f.detail = format!("{} on {}: {}", op.to_json(), NAMES[t], f.detail);
+                        self.emit(out, op, f);
+                    }
+                }
+            }
+        }
+        // coherence of the object itself + in-grid
+        let mut grid = BTreeSet::new();
+        for (i, d) in dumps.iter().enumerate() {
+            for (sym, kind, detail) in &d.anomalies {
+                self.emit(out, op, Finding { clause: "relocation", symptom: sym.to_string(), kind, align: "n/a", detail: format!("{} on {}: {}: {}", op.to_json(), NAMES[t], NAMES[i], detail), more: vec![] });
+            }
+            for (sym, kind) in grid_problems(&d.coords) {
+                grid.insert((i, sym, kind));
+                if !s.grid.contains(&(i, sym, kind)) {
+                    let prefix = if i == t { "" } else { "other-sheet:" };
+                    let model_kind = kind;
+                    let more = composites(op, &s.model[i], &[], Some(model_kind), prefix);
+                    let offenders: Vec<String> = d
+                        .coords
+                        .iter()
+                        .filter(|(k, r)| *k == kind && grid_problems(&[(*k, *r)]).iter().any(|(s2, _)| *s2 == sym))
+                        .take(3)
+                        .map(|(_, r)| fmt_rect(r))
+                        .collect();
+                    self.emit(
+                        out,
+                        op,
+                        Finding { clause: "in-grid", symptom: sym.to_string(), kind, align: "n/a", detail: format!("{} on {}: {} of {} now has coordinates outside 1..16384 x 1..1048576 or start>end: {:?}", op.to_json(), NAMES[t], kind, NAMES[i], offenders), more },
+                    );
+                }
+            }
+        }
+        // a state holding a rectangle with row/column 0 or start after end is outside the domain of the property
+        // (and of the model: such a "rectangle" is not a set of cells): reported above, not expanded further
+        if grid.iter().any(|(_, sym, _)| *sym != "beyond-grid") {
+            self.pruned.set(self.pruned.get() + 1);
+            return None;
+        }
+        // ---- successor: continue from the real object; the model follows the real object after a divergence
+        let model: RefBook = if diverged {
+            self.resyncs.set(self.resyncs.get() + 1);
+            dumps.iter().map(|d| d.view.clone()).collect()
+        } else {
+            exp
+        };
+        let key = state_key(&dumps);
+        let raw = dumps.iter().map(|d| (d.raw_merges.clone(), d.raw_cfs.clone(), d.aux.clone())).collect();
+        Some(Node { book, model, key, grid, raw })
+    }
+}
+
+// =================================================================================================
+// pool spaces: one case = (seed, first operation)
+
+pub struct Hist {
+    alpha: &'static str,
+    depth: usize,
+    max_states: u64,
+    nops: usize,
+}
+impl Hist {
+    fn new(alpha: &'static str, depth: usize, max_states: u64) -> Hist {
+        Hist { alpha, depth, max_states, nops: alphabet(alpha).len() }
+    }
+    fn split(&self, i: u64) -> (usize, usize) {
+        ((i / self.nops as u64) as usize, (i % self.nops as u64) as usize)
+    }
+}
+impl Space for Hist {
+    fn len(&self) -> u64 {
+        (SEED_NAMES.len() * self.nops) as u64
+    }
+    fn describe(&self, i: u64) -> Value {
+        let (seed, first) = self.split(i);
+        json!({"seed": SEED_NAMES[seed], "first_op": alphabet(self.alpha)[first].to_json(), "alphabet": self.alpha, "depth": self.depth})
+    }
+    fn tags(&self, i: u64) -> Vec<String> {
+        let (_, first) = self.split(i);
+        let op = &alphabet(self.alpha)[first];
+        vec![op.name(), op.level_tag().to_string()]
+    }
+    fn run(&self, i: u64, sink: &mut Sink) {
+        let (seed, first) = self.split(i);
+        let m = C07Machine::new(self.alpha);
+        let init = m.init(seed);
+        let st = bfs(&m, init, json!({"seed": SEED_NAMES[seed], "alphabet": self.alpha}), Some(first), self.depth, self.max_states, sink);
+        sink.count("resyncs", m.resyncs.get());
+        sink.count("law_checks", m.law_checks.get());
+        sink.count("successors_not_expanded_row0_col0_or_inverted_rect", m.pruned.get());
+        sink.count("violations_beyond_per_case_class_cap", m.suppressed.get());
+        if sink.sample_this {
+            sink.samples.push(json!({"case": self.describe(i), "states": st.states, "transitions": st.transitions, "per_depth": st.per_depth}));
+        }
+    }
+}
+
+fn space_cfg(tier: Tier, id: &str) -> Option<Hist> {
+    match (tier, id) {
+        (Tier::Quick, "full-d2") => Some(Hist::new("full", 2, 200_000)),
+        (Tier::Quick, "insrem-d3") => Some(Hist::new("insrem", 3, 200_000)),
+        (Tier::Thorough, "full-d3") => Some(Hist::new("full", 3, 400_000)),
+        (Tier::Thorough, "insrem24-d5") => Some(Hist::new("insrem24", 5, 600_000)),
+        (Tier::Thorough, "unit4-d10") => Some(Hist::new("unit4", 10, 600_000)),
+        _ => None,
+    }
+}
+
+pub fn space(tier: Tier, id: &str) -> Option<Box<dyn Space>> {
+    space_cfg(tier, id).map(|h| Box::new(h) as Box<dyn Space>)
+}
+
+fn replay(tier: Tier, case: &Value) -> Vec<Violation> {
+    let id = case["_space"].as_str().unwrap_or("");
+    let h = match space_cfg(tier, id).or_else(|| space_cfg(Tier::Quick, id)).or_else(|| space_cfg(Tier::Thorough, id)) {
+        Some(h) => h,
+        None => {
+            eprintln!("replay: unknown space {:?}", id);
+            return vec![];
+        }
+    };
+    let seed = SEED_NAMES.iter().position(|s| Some(*s) == case["init"]["seed"].as_str()).unwrap_or(0);
+    let ipath: Vec<u32> = case["ipath"].as_array().map(|a| a.iter().filter_map(|x| x.as_u64().map(|y| y as u32)).collect()).unwrap_or_default();
+    let m = C07Machine::new(h.alpha);
+    let init = m.init(seed);
+    let all = replay_path(&m, init, &ipath);
+    // only the last step is the recorded transition (earlier steps were reported by their own cases)
+    let n = ipath.len();
+    all.into_iter().filter(|v| v.case["path"].as_array().map(|p| p.len()) == Some(n)).collect()
+}
+
+/// machinery self-checks (never a verdict): closed forms of the model vs literal set semantics, and
+/// dump(seed built through the library's setters) == hand-built model of the same seed.
+fn self_checks() -> Result<(), String> {
+    refgrid::self_check()?;
+    for seed in 0..SEED_NAMES.len() {
+        let (book, model) = build_seed(seed);
+        for (i, ws) in book.get_sheet_collection_no_check().iter().enumerate() {
+            let d = dump_sheet(ws);
+            if d.view != model[i] {
+                return Err(format!("seed {} sheet {}: dump of the freshly built object differs from the hand-built model: {}", SEED_NAMES[seed], i, sheet_diff_text(&model[i], &d.view)));
+            }
+            if !d.anomalies.is_empty() {
+                return Err(format!("seed {} sheet {}: {:?}", SEED_NAMES[seed], i, d.anomalies));
+            }
+        }
+    }
+    Ok(())
+}
+
+fn run(ctx: &Ctx) -> i32 {
+    quiet_panics();
+    let sc = std::panic::catch_unwind(self_checks);
+    match sc {
+        Ok(Ok(())) => {}
+        Ok(Err(e)) => {
+            eprintln!("MACHINERY: C07 self-check failed: {}", e);
+            return 2;
+        }
+        Err(e) => {
+            eprintln!("MACHINERY: C07 self-check panicked: {}", panic_msg(&e));
+            return 2;
+        }
+    }
+    let thorough = ctx.tier == Tier::Thorough;
+    let ids: Vec<&'static str> = if thorough { vec!["full-d3", "insrem24-d5", "unit4-d10"] } else { vec!["full-d2", "insrem-d3"] };
+    let spaces: Vec<(&'static str, Box<dyn Space>)> = ids.iter().map(|id| (*id, space(ctx.tier, id).unwrap())).collect();
+    let alpha_json = |n: &str| json!(alphabet(n).iter().map(|o| o.to_json()).collect::<Vec<_>>());
+    let sizes = json!({"full": alphabet("full").len(), "insrem": alphabet("insrem").len(), "insrem24": alphabet("insrem24").len(), "unit4": alphabet("unit4").len()});
+    run_e1(
+        ctx,
+        E1Spec {
+            spaces,
+            cfg: PoolCfg { chunk: if thorough { 1 } else { 4 }, case_timeout: std::time::Duration::from_secs(60), keep_per_class: 2, ..Default::default() },
+            level: "model_checking",
+            rule: "breadth-first enumeration of ALL operation histories up to the stated depth over the stated alphabet from each of 4 seeded two-sheet workbooks; one pool case = (seed, first operation); nodes carry the real Spreadsheet cloned from the parent; two nodes are merged iff the full positional dump of both sheets (cells with own coordinates incl. blank ones, row table, column table, merges, comments, conditional-format ranges, filter) is equal; every transition is compared with the reference grid stepped in lock-step (all sheets), checked for panics and for coordinates outside the grid; 'law' operations (insert(p,n) then remove(p,n) must be the identity) are part of the alphabet, i.e. evaluated on every expanded state. states = distinct state keys per space (summed over spaces); after a divergence the model is re-synchronised to the real object (counter resyncs)".into(),
+            alphabets: json!({"sizes": sizes, "seeds": SEED_NAMES, "full": alpha_json("full"), "insrem": "Worksheet- and Spreadsheet-level (Sheet1, Sheet2) insert/remove row/column, p in {1,2,3}, n in {1,2} + 4 law ops", "insrem24": "Worksheet-level insert/remove row/column, p in {1,2,3}, n in {1,2} + 2 law ops (p=2,n=1)", "unit4": alpha_json("unit4")}),
+            bounds: if thorough {
+                json!({"full-d3": "depth 3, full alphabet, 4 seeds", "insrem24-d5": "depth 5, 26-op sheet-level insert/remove alphabet, 4 seeds", "unit4-d10": "depth 10, 4-op unit alphabet, 4 seeds"})
+            } else {
+                json!({"full-d2": "depth 2, full alphabet, 4 seeds", "insrem-d3": "depth 3, 76-op insert/remove alphabet (sheet-level + workbook-level for both sheets, p<=3, n<=2), 4 seeds"})
+            },
+            exhaustive: true,
+            caps_hit: vec![],
+            assumptions: vec![
+                "formulas in the explored workbooks are reference-free (1+1, PI()): any change of formula text is a violation here; reference rewriting is C08".into(),
+                "move_range/copy_range arguments are restricted to in-range destinations; insert/remove use n >= 1".into(),
+                "a rectangle (merge, conditional-format range, filter) is a set of cells: after a removal it is the bounding box of its survivors, or disappears when none survives".into(),
+                "the harness is built with overflow-checks=on, so an unsigned underflow inside the library surfaces as a panic (clause no-panic) instead of a wrapped coordinate".into(),
+                "row/column table entries that carry no setting (created as a side effect of cell creation) are not compared with the model, only included in the state key and in the in-grid clause".into(),
+            ],
+            min_distinct: 1000,
+        },
+    )
 }
